@@ -1824,8 +1824,8 @@ func init() {
 
 func init() {
 	register(&Rule{
-		Name: "server-teardown-bounded", Props: []string{"C10", "C17"}, Engine: "AST", Floor: 4,
-		Doc: "Serve's teardown cannot be held open by the peer: the wait for the write loop to drain is a select with a timer arm of a positive constant duration; the reader channel is closed before that wait (which unwinds the stream loop, which stops the writer); the write loop's goroutine closes the socket when it leaves; the stream loop's goroutine closes writeStop after the loop",
+		Name: "server-teardown-bounded", Props: []string{"C10", "C17"}, Engine: "AST", Floor: 9,
+		Doc: "Serve's teardown cannot be held open by the peer: the wait for the write loop to drain is a select with a timer arm of a positive constant duration; the reader channel is closed before that wait (which unwinds the stream loop, which stops the writer); the write loop's goroutine closes the socket when it leaves; the stream loop's goroutine closes writeStop after the loop; the write loop's goroutine closes writeGone when it leaves and sc.write gives up on either; a connection-error GOAWAY limits every socket write (the one in progress through a deadline, the later ones through the write loop) before it is queued",
 		Run: func(p *Prog, r *Out) {
 			fd := p.decl("(*serverConn).Serve")
 			if fd == nil {
@@ -1927,6 +1927,109 @@ func init() {
 			r.check(closesReader && order, "reader closed before the wait", pos, "close(sc.reader) then the bounded wait", "the teardown no longer closes the reader channel before it waits for the writer: the stream loop is what stops the writer, and it only leaves when its input is closed")
 			r.check(closesSock, "write loop's goroutine closes the socket on its way out", pos, "defer sc.c.Close() around writeLoop", "the goroutine that runs the write loop no longer closes the socket when the loop leaves (also by panic): the read loop keeps waiting for a peer that gets no more answers")
 			r.check(closesStop, "writer is stopped after the stream loop", pos, "handleStreams(); ...; close(sc.writeStop)", "writeStop is no longer closed after the stream loop has left: the write loop never drains and stops, and every later sc.write blocks")
+			// the write loop announces its exit, and nothing waits to queue a frame after it
+			announces := false
+			ast.Inspect(fd.Body, func(n ast.Node) bool {
+				g, ok := n.(*ast.GoStmt)
+				if !ok {
+					return true
+				}
+				lit, ok := g.Call.Fun.(*ast.FuncLit)
+				if !ok {
+					return true
+				}
+				runs := false
+				inspectCalls(lit.Body, func(c *ast.CallExpr) {
+					if p.calleeOf(c) == "(*serverConn).writeLoop" {
+						runs = true
+					}
+				})
+				if runs {
+					for _, st := range lit.Body.List {
+						if d, ok := st.(*ast.DeferStmt); ok && squash(p.text(d.Call)) == "close(sc.writeGone)" {
+							announces = true
+						}
+					}
+				}
+				return true
+			})
+			made := false
+			for _, st := range fd.Body.List {
+				if squash(p.text(st)) == "sc.writeGone=make(chanstruct{})" {
+					made = true
+				}
+			}
+			r.check(announces && made, "the write loop's goroutine announces that it has left", pos, "sc.writeGone = make(chan struct{}); defer close(sc.writeGone) around writeLoop", "the goroutine that runs the write loop no longer closes writeGone when the loop leaves (also on a write error or a panic): the stream loop and the read loop stay parked trying to queue frames nobody takes, and Serve never returns")
+			if wf := p.decl("(*serverConn).write"); wf != nil {
+				r.fn("(*serverConn).write")
+				arms := map[string]bool{}
+				nArms := 0
+				ast.Inspect(wf.Body, func(n ast.Node) bool {
+					if cc, ok := n.(*ast.CommClause); ok {
+						nArms++
+						if cc.Comm != nil {
+							arms[squash(p.text(cc.Comm))] = true
+						}
+					}
+					return true
+				})
+				r.check(arms["sc.writer<-fr"] && arms["<-sc.writeStop"] && arms["<-sc.writeGone"] && nArms == 3, "queueing a frame gives up when the writer is stopped or gone", p.pos(wf.Pos()), "select { writer <- fr; <-writeStop; <-writeGone }", "sc.write no longer gives up when the write loop has been stopped or has left (or blocks on something else as well): with the queue full it parks for good")
+			}
+			// a connection error bounds every later write, the one in progress included
+			if ga := p.decl("(*serverConn).writeGoAway"); ga != nil {
+				r.fn("(*serverConn).writeGoAway", "(*serverConn).limitWrites", "(*serverConn).writeLoop")
+				limitAt, writeAt := token.NoPos, token.NoPos
+				for _, st := range ga.Body.List {
+					if ifs, ok := st.(*ast.IfStmt); ok && squash(p.text(ifs.Cond)) == "code!=NoError" && len(ifs.Body.List) == 1 && squash(p.text(ifs.Body.List[0])) == "sc.limitWrites(writeDrainTimeout)" {
+						limitAt = ifs.Pos()
+					}
+					if squash(p.text(st)) == "sc.write(fr)" {
+						writeAt = st.Pos()
+					}
+				}
+				r.check(limitAt.IsValid() && writeAt.IsValid() && limitAt < writeAt, "a connection error bounds the writes before its GOAWAY is queued", p.pos(ga.Pos()), "if code != NoError { limitWrites(writeDrainTimeout) }; write(fr)", "writeGoAway no longer limits socket writes before it queues the GOAWAY of a connection error: with a peer that has stopped reading the queue is full, the write loop is parked in a write without a deadline, and the read loop parks here")
+			}
+			if lw := p.decl("(*serverConn).limitWrites"); lw != nil {
+				stores, deadline := false, false
+				ast.Inspect(lw.Body, func(n ast.Node) bool {
+					if c, ok := n.(*ast.CallExpr); ok {
+						t := squash(p.text(c))
+						if t == "sc.writeLimit.Store(int64(d))" {
+							stores = true
+						}
+						if t == "sc.c.SetWriteDeadline(time.Now().Add(d))" {
+							deadline = true
+						}
+					}
+					return true
+				})
+				r.check(stores && deadline, "the limit covers the write in progress and the later ones", p.pos(lw.Pos()), "writeLimit.Store(d); SetWriteDeadline(now + d)", "limitWrites no longer records the limit for the write loop and puts a deadline on the socket for the write that is already in progress")
+			}
+			if wl := p.decl("(*serverConn).writeLoop"); wl != nil {
+				applied := false
+				ast.Inspect(wl.Body, func(n ast.Node) bool {
+					ifs, ok := n.(*ast.IfStmt)
+					if !ok || ifs.Init == nil || squash(p.text(ifs.Init)) != "d:=sc.writeLimit.Load()" || squash(p.text(ifs.Cond)) != "d>0" {
+						return true
+					}
+					inspectCalls(ifs.Body, func(c *ast.CallExpr) {
+						if squash(p.text(c)) == "sc.c.SetWriteDeadline(time.Now().Add(time.Duration(d)))" {
+							applied = true
+						}
+					})
+					// before the frame is written
+					pm := p.pmFor(wl)
+					if blk, ok := pm[ifs].(*ast.BlockStmt); ok {
+						for _, st := range blk.List {
+							if st.Pos() < ifs.Pos() && strings.Contains(p.text(st), "WriteTo") {
+								applied = false
+							}
+						}
+					}
+					return true
+				})
+				r.check(applied, "the write loop renews the limit before each frame", p.pos(wl.Pos()), "if d := writeLimit.Load(); d > 0 { SetWriteDeadline(now + d) } before WriteTo", "the write loop no longer puts the recorded limit on the socket before it writes a frame: only the write in progress when the error was found is bounded, the next one parks again")
+			}
 		},
 	})
 }
